@@ -28,7 +28,16 @@ def matrix(draw, n, kind, mf=2.0):
         return draw(gen.unimodular_int_matrix(n, steps=5, maxabs=2))
     s = draw(st.integers(0, 11))
     if s == 0:
-        which = draw(st.sampled_from(["id", "negid", "perm", "diag"]))
+        which = draw(st.sampled_from(["id", "negid", "perm", "diag", "rot90", "rot90"]))
+        if which == "rot90":
+            # a quarter turn in a coordinate plane: zero diagonal entries there (polynomial
+            # maps such as sl2_irrep see 0**k terms)
+            M = np.eye(n)
+            if n >= 2:
+                i = draw(st.integers(0, n - 2))
+                M[i, i] = M[i + 1, i + 1] = 0.0
+                M[i, i + 1], M[i + 1, i] = -1.0, 1.0
+            return _as_kind(M, kind)
         if which == "id":
             M = np.eye(n)
         elif which == "negid":
